@@ -1,5 +1,6 @@
 import Driver.RegOps
 import Driver.PrimaryOps
+import Driver.IssuanceOps
 import Driver.BnOps
 import Driver.ScalarOps
 open Lean
@@ -9,7 +10,7 @@ namespace Drv
 /-- every area contributes a partial dispatcher `String → Json → Option (Except String Json)`;
     add new areas to this list (one line each) -/
 def dispatchers : List (String → Json → Option (Except String Json)) :=
-  [ dispatchReg, dispatchPrimary noNrHook, dispatchScalar, dispatchBn ]
+  [ dispatchReg, dispatchPrimary noNrHook, dispatchIssuance, dispatchScalar, dispatchBn ]
 
 def dispatch (op : String) (inp : Json) : Except String Json :=
   match dispatchers.findSome? (fun d => d op inp) with
